@@ -187,6 +187,51 @@ func (e *endpoint) waitFor(d time.Duration, cond func() bool) bool {
 	return true
 }
 
+// progressCount is a number that grows whenever anything observable happens
+// at this endpoint (hook events, handler calls, accounted bytes, errors).
+// Caller holds e.mu.
+func (e *endpoint) progressCount() int {
+	return len(e.events) + len(e.handledBy) + len(e.errs) + e.accounted
+}
+
+// waitProgress is the liveness wait of the bounded-liveness oracles: it returns
+// "done" as soon as cond() holds, "stalled" when nothing observable happened
+// for a whole window (a deadlock has no progress at all, a starved machine
+// still progresses slowly), "cap" when things were still moving after cap.
+// extra (may be nil) adds harness-side progress (e.g. messages read from the wire).
+func (e *endpoint) waitProgress(window, cap time.Duration, cond func() bool, extra func() int) string {
+	start := time.Now()
+	last := -1
+	for {
+		if time.Since(start) > cap {
+			return "cap"
+		}
+		e.mu.Lock()
+		cur := e.progressCount()
+		e.mu.Unlock()
+		if extra != nil {
+			cur += extra()
+		}
+		if e.isDone() {
+			cur++
+		}
+		if last >= 0 && cur == last {
+			return "stalled"
+		}
+		last = cur
+		if e.waitFor(window, cond) {
+			return "done"
+		}
+	}
+}
+
+// livenessWindow / livenessCap: a verdict "it hangs" needs a full window
+// without any observable progress; expected latencies are milliseconds.
+const (
+	livenessWindow = 10 * time.Second
+	livenessCap    = 100 * time.Second
+)
+
 func (e *endpoint) isDone() bool {
 	select {
 	case <-e.proto.DoneChan():
